@@ -128,6 +128,21 @@ template <class G> std::string checkSparse(const G &g, const GraphSpec &s) {
         }
     return "";
 }
+// many edges: files of tens of kilobytes, so that reads and writes cross the stream buffer several times
+inline GraphSpec ioSpecBig(Rng &r, bool directed) {
+    GraphSpec g;
+    g.directed = directed;
+    unsigned n = 200 + r.u(1500);
+    g.n = n + r.u(5);
+    unsigned target = 500 + r.u(3500);
+    std::set<Edge> seen;
+    for (unsigned t = 0; t < target * 2 && seen.size() < target; ++t) {
+        VertexIndex a = r.u(n), b = r.chance(1, 40) ? a : r.u(n);
+        Edge e = canon(directed, a, b);
+        if (seen.insert(e).second) g.edges.push_back(e);
+    }
+    return g;
+}
 inline unsigned usedSize(const GraphSpec &s) {
     unsigned m = 0;
     for (auto &e : s.edges) m = std::max(m, std::max(e.first, e.second) + 1);
